@@ -302,7 +302,7 @@ PROPS.update({
     },
     "C20": {
         "level": "exploration",
-        "level_text": "two parts. (1) The property itself as lemmas over the verified contracts: for 27 routines a Verus lemma takes the postcondition the routine was verified against (call_ensures of the routine) for two logically equal arrays - same shape, same elements in logical order, same index patterns; strides, memory order, offset and ownership are whatever the uninterpreted layout-revealing functions of the shim say, independently for the two - and derives that the answers agree: identical results and identical errors (both shapes in the payload) for count_eq, count_neq, weighted_sum; identical whenever the order of summation is immaterial for the element type (integers) for sq_l2_dist, l1_dist, linf_dist, l2_dist, mean_abs_err, mean_sq_err, root_mean_sq_err, mean, weighted_mean; the same real value under A-REAL (on the machine: up to summation roundoff, as the property asks) for weighted_var, central_moment, kurtosis, skewness, harmonic_mean, entropy, kl_divergence, cross_entropy; extremal elements of the same logical array, equivalent under the element order, for argmin, argmax, min, max (which of several equivalent extremal elements is returned is not determined by the contract, nor by the code: known finding D11); equal counts in every cell for histogram(). A contract that stops determining the answer, or a body that starts to depend on layout (as_slice_memory_order and is_standard_layout have deliberately weak contracts), fails its lemma or its postcondition. (2) For every function under a Verus contract the shim exposes only ndarray's logical interface, so the proofs hold for every layout/ownership for which ndarray honours that interface (assumption A-ND). The stride-aware unsafe code is enumerated at the memory level (enum:nanview). Every other public routine is run on pairs (canonical array, logically equal re-layout) and must return bit-identical results for order-based and integer statistics and exact results for float sums of small integers",
+        "level_text": "two parts. (1) The property itself as lemmas over the verified contracts: for 27 routines a Verus lemma takes the postcondition the routine was verified against (call_ensures of the routine) for two logically equal arrays - same shape, same elements in logical order, same index patterns; strides, memory order, offset and ownership are whatever the uninterpreted layout-revealing functions of the shim say, independently for the two - and derives that the answers agree: identical results and identical errors (both shapes in the payload) for count_eq, count_neq, weighted_sum; identical whenever the order of summation is immaterial for the element type (integers) for sq_l2_dist, l1_dist, linf_dist, l2_dist, mean_abs_err, mean_sq_err, root_mean_sq_err, mean, weighted_mean; the same real value under A-REAL (on the machine: up to summation roundoff, as the property asks) for weighted_var, weighted_std, central_moment, kurtosis, skewness, harmonic_mean, geometric_mean, entropy, kl_divergence, cross_entropy; extremal elements of the same logical array, equivalent under the element order, for argmin, argmax, min, max (which of several equivalent extremal elements is returned is not determined by the contract, nor by the code: known finding D11); equal counts in every cell for histogram(). A contract that stops determining the answer, or a body that starts to depend on layout (as_slice_memory_order and is_standard_layout have deliberately weak contracts), fails its lemma or its postcondition. (2) For every function under a Verus contract the shim exposes only ndarray's logical interface, so the proofs hold for every layout/ownership for which ndarray honours that interface (assumption A-ND). The stride-aware unsafe code is enumerated at the memory level (enum:nanview). Every other public routine is run on pairs (canonical array, logically equal re-layout) and must return bit-identical results for order-based and integer statistics and exact results for float sums of small integers",
         "level_note": "bounded: enum:layouts - random integer-valued data, shapes 1-D..4-D (<= 16 elements), F-order / stepped-in-parent / reversed axes / embedded at an offset, owned/view/shared/copy-on-write, static vs dynamic dimension; enum:nanview. Float sums under different summation orders: only exactly-representable data",
         "technique": "relational (2-safety) lemmas over the verified contracts of 27 routines (call_ensures of the routine on two logically equal arrays) + logical-interface shim for every function under contract + bounded re-layout enumeration on the real crate (incl. the stride-aware unsafe code at the memory level)",
         "design_ref": "DESIGN.md 4 (C20)",
